@@ -180,8 +180,12 @@ type boltClient struct {
 	c      net.Conn
 	br     *bufio.Reader
 	seq    uint32
+	back   uint32
 	goaway int
 }
+
+// rewind makes readResp expect the response of the previous request again.
+func (b *boltClient) rewind() { b.back++ }
 
 func (b *boltClient) conn() net.Conn { return b.c }
 func (b *boltClient) request(id string, size int) ([]byte, []byte) {
@@ -191,6 +195,8 @@ func (b *boltClient) request(id string, size int) ([]byte, []byte) {
 }
 func (b *boltClient) readResp(p *plan, timeout time.Duration) error {
 	b.c.SetReadDeadline(time.Now().Add(timeout))
+	want := b.seq - b.back
+	b.back = 0
 	for {
 		f, err := readBoltFrame(b.br)
 		if err != nil {
@@ -203,8 +209,8 @@ func (b *boltClient) readResp(p *plan, timeout time.Duration) error {
 		if f.typ != 0 || f.cmd != 2 {
 			return fmt.Errorf("unexpected bolt frame type %d cmd %d", f.typ, f.cmd)
 		}
-		if f.reqID != b.seq || !bytes.Equal(f.content, p.body) {
-			return fmt.Errorf("bad bolt response id %d (want %d) len %d", f.reqID, b.seq, len(f.content))
+		if f.reqID != want || !bytes.Equal(f.content, p.body) {
+			return fmt.Errorf("bad bolt response id %d (want %d) len %d", f.reqID, want, len(f.content))
 		}
 		return nil
 	}
@@ -298,6 +304,7 @@ type h2Client struct {
 	enc    *hpack.Encoder
 	encBuf bytes.Buffer
 	nextID uint32
+	back   uint32
 
 	mu     sync.Mutex
 	goaway int32
@@ -479,8 +486,12 @@ func (h *h2Client) request(id string, size int) ([]byte, []byte) {
 	return hb.Bytes(), db.Bytes()
 }
 
+// rewind makes readResp look at the previous request again (after an extra request was begun on the connection).
+func (h *h2Client) rewind() { h.back += 2 }
+
 func (h *h2Client) readResp(p *plan, timeout time.Duration) error {
-	sid := h.nextID - 2
+	sid := h.nextID - 2 - h.back
+	h.back = 0
 	dl := time.After(timeout)
 	for {
 		h.mu.Lock()
@@ -501,6 +512,10 @@ func (h *h2Client) readResp(p *plan, timeout time.Duration) error {
 		}
 		if err != nil {
 			return h.classify(sid, err)
+		}
+		// a GOAWAY whose last-stream-id is below this stream: the server will never answer it, repeat elsewhere
+		if e := h.classify(sid, nil); e == errRetryable {
+			return e
 		}
 		select {
 		case <-h.notify:
